@@ -26,6 +26,11 @@ def alphabet(spec):
     return out
 
 
+COMMON = {'fork': 1, 'full': 1, 'mutate_views': 1, 'views': 1, 'xcopy': 1,
+          'peer': 1, 'xcopy_vars': 1, 'file_roundtrip': 1, 'queries': 1,
+          'traverse': 1, 'add_var': 1}
+
+
 def run_random(spec, out, alpha, nontrivial, shutdown=False):
     """Hypothesis-generated histories.  Failures are collected (not
     raised) so that generation continues and several root causes are
@@ -33,6 +38,8 @@ def run_random(spec, out, alpha, nontrivial, shutdown=False):
     import hypothesis
     from hypothesis import given, settings, strategies as st, HealthCheck
 
+    # cross-cutting operations join every alphabet with a small weight
+    alpha = dict(COMMON, **alpha)
     ops = W.op_strategy(alphabet(alpha))
     cfgs = spec['cfgs']
 
